@@ -690,26 +690,7 @@ impl OrdWorld {
             let i = snap::find_key(&s, k);
             if i != snap::E {
                 let c = snap::classify_delete(&s, i);
-                ctx.stats.bump(match c {
-                    "one_child" => "delete.one_child",
-                    "last_entry" => "delete.last_entry",
-                    "red_leaf" => "delete.red_leaf",
-                    "case2_red_sibling_L" => "delete.case2_red_sibling_L",
-                    "case2_red_sibling_R" => "delete.case2_red_sibling_R",
-                    "case3_black_sib_red_parent" => "delete.case3_black_sib_red_parent",
-                    "case4_black_sib_black_parent" => "delete.case4_black_sib_black_parent",
-                    "case5_near_red_L" => "delete.case5_near_red_L",
-                    "case5_near_red_R" => "delete.case5_near_red_R",
-                    "case6_far_red_L" => "delete.case6_far_red_L",
-                    "case6_far_red_R" => "delete.case6_far_red_R",
-                    "two_children/succ_child/one_child" => "delete.two_children/succ_child/one_child",
-                    "two_children/succ_child/red_leaf" => "delete.two_children/succ_child/red_leaf",
-                    "two_children/succ_child/black_leaf" => "delete.two_children/succ_child/black_leaf",
-                    "two_children/succ_deep/one_child" => "delete.two_children/succ_deep/one_child",
-                    "two_children/succ_deep/red_leaf" => "delete.two_children/succ_deep/red_leaf",
-                    "two_children/succ_deep/black_leaf" => "delete.two_children/succ_deep/black_leaf",
-                    _ => "delete.other",
-                });
+                ctx.stats.bump(key2(self.colls[0].name(), key2("delete", c)));
             }
         }
     }
@@ -719,18 +700,10 @@ impl OrdWorld {
             return;
         }
         if let Some(s) = self.colls[0].snapshot() {
-            ctx.stats.bump(match snap::classify_insert(&s, k) {
-                "root" => "insert.root",
-                "black_parent" => "insert.black_parent",
-                "case2_red_root_parent" => "insert.case2_red_root_parent",
-                "case3_red_uncle" => "insert.case3_red_uncle",
-                "case5a_outer_LL" => "insert.case5a_outer_LL",
-                "case4a_inner_LR" => "insert.case4a_inner_LR",
-                "case5b_outer_RR" => "insert.case5b_outer_RR",
-                _ => "insert.case4b_inner_RL",
-            });
+            let name = self.colls[0].name();
+            ctx.stats.bump(key2(name, key2("insert", snap::classify_insert(&s, k))));
             if s.unused.is_empty() {
-                ctx.stats.bump("arena.growth_on_insert");
+                ctx.stats.bump(key2(name, "arena.growth_on_insert"));
             }
         }
     }
